@@ -34,8 +34,14 @@ Definition c11_take_hdr (l : list Z) : option (option hdr * list Z) :=
   | _ => None
   end.
 
+(* entry 9 (known class K_custom_registered): crit / b64 carried in the custom map.  The policy functions read the dedicated fields only,
+   so the faithful model of the header is {alg; no b64; no crit; custom = {crit / b64}} and every encoder accepts it *)
+Definition c11_custom_map_header (v : Z) : hdr :=
+  {| h_alg := true; h_b64 := None; h_crit := None; h_common := [];
+     h_custom := Some (if v =? 0 then [N_CRIT] else if v =? 1 then [N_B64] else if v =? 2 then [N_B64; N_CRIT] else [N_CRIT]) |}.
 Definition c11_run (input : list Z) : list Z :=
   match input with
+  | [9; v; e] => [zb (if e =? 0 then enc_compact (c11_custom_map_header v) else enc_json (Some (c11_custom_map_header v)) None)]
   | entry :: fb :: r =>
       match c11_take_hdr r with
       | Some (p, r1) =>
